@@ -54,8 +54,14 @@ class Arena:
         cont.close()
         return self
 
+    low = False  # shadow the lookup thresholds on client handles: every bulk call then takes the ordered-full-scan strategy
+
     def handle(self):
-        return self.Container(self.root)
+        cont = self.Container(self.root)
+        if self.low:
+            cont._MAX_CHUNK_ITERATE_LENGTH = 1  # pylint: disable=protected-access
+            cont._IN_SQL_MAX_LENGTH = 2  # pylint: disable=protected-access
+        return cont
 
     def bad(self, mech, msg):
         self.problems.append((mech, msg))
@@ -205,6 +211,9 @@ def run_depth1(case):  # noqa: C901
         def one(k):
             arena = Arena(os.path.join(base, f'r{k}'), template=tmpl)
             packer = arena.handle()
+            arena.low = bool(case.get('low'))
+            if arena.low:
+                counters['depth1-cases-with-full-scan-lookups'] += 1
             client = arena.handle()
             if pinned:
                 _pin(client, arena)
